@@ -1,6 +1,7 @@
 /- Driver commands `js.*` (C14). -/
 import PasskeyVerif.Model.WebauthnJson
 import PasskeyVerif.Model.SerdeStruct
+import PasskeyVerif.Model.SerdeSer
 import PasskeyVerif.Generated.WebauthnSchema
 import PasskeyVerif.Driver.AuthText
 namespace PasskeyVerif.Driver.WebJson
@@ -104,6 +105,20 @@ def step (st : St) (op : List String) (impl : String) : St × String :=
       | .ok v => (st, "ok:" ++ showVal v ++ "\t" ++ (if impl = "panic" then "fail:panic" else "ok"))
       | .err => (st, "err\t" ++ (if impl = "panic" then "fail:panic" else "ok"))
       | .unmodelled => (st, impl ++ "\t" ++ (if impl = "panic" then "fail:panic" else "na"))
+  | ["js.ser", root, doc] =>
+    -- the emitted text against the serialiser model applied to the value the parser model reads from it
+    match textOfHex doc with
+    | none => (st, "bad-op\tna")
+    | some t =>
+      match Serde.parseRoot Generated.Webauthn.schema (fun v => knownAlgs.contains v) root t with
+      | .ok v =>
+        -- binary members are arrays of numbers unless the crate was built with `serialize_bytes_as_base64_string`
+        let b64 := (t.splitOn "\"rawId\":\"").length > 1
+        (match Serde.serTy Generated.Webauthn.schema b64 64 (.struct root) v with
+         | some j => (st, hx (Serde.render j).toUTF8.toList ++ "\tok")
+         | none => (st, impl ++ "\tna"))
+      | .err => (st, "err\tfail:an-emitted-credential-does-not-parse")
+      | .unmodelled => (st, impl ++ "\tna")
   | ["js.emit", _kind, _doc] =>
     (st, impl ++ "\t" ++ (if impl = "same" then "ok" else "fail:emitted-credential-does-not-re-parse-to-an-equal-value"))
   | ["js.b64", h] =>
